@@ -111,13 +111,13 @@ class ValidatedOracle(Oracle):
     quick_cases = 4000
     bound = "Text/Integer/Choice fields x empty allowed or not x length {none, 2, 1...3} x allowed characters {none, a-z+blank+digits} x formats {delimited, fixed(width 3)} x cells up to length 4 over {a, 1, blank, #}"
     def cases(self, ctx):
-        cells = [""] + ["".join(p) for n in (1, 2, 3, 4) for p in itertools.product("a1 #", repeat=n)]
+        cells = [""] + ["".join(p) for n in (1, 2, 3, 4) for p in itertools.product("a1 #", repeat=n)] + ["\ta", "a\t", "\t", "\t  ", " \t1", "a\tb"]
         for fmt in ("delimited", "fixed"):
             for ftype in ("Text", "Integer", "Choice"):
                 for empty in (False, True):
                     for length in (["3"] if fmt == "fixed" else ["", "2", "1...3"]):
                         for ac in (None, "32, 48...57, 97...122"):
-                            for cell in cells[::3] if not ctx.thorough else cells:
+                            for cell in (cells[::3] + cells[-6:]) if not ctx.thorough else cells:
                                 yield (fmt, ftype, empty, length, ac, cell)
     def check(self, case):
         from cutplace import data, fields, errors, ranges
